@@ -121,6 +121,9 @@ func fmtFloatSpec(f float64) string {
 // builder holds per-case state for Build (pointer identity for C12 etc.).
 type builder struct {
 	inst int
+	// cache: if non-nil, a spec node (by pointer) is built only once, so that
+	// two shapes sharing nodes print the same objects (same addresses)
+	cache map[*Val]interface{}
 }
 
 // Build turns a spec into a Go value for instantiation inst (0 or 1).
@@ -132,6 +135,15 @@ func BuildAll(vs []*Val, inst int) []interface{} {
 	out := make([]interface{}, len(vs))
 	for i, v := range vs {
 		out[i] = Build(v, inst)
+	}
+	return out
+}
+
+// buildAllWith builds with a given builder (shared cache).
+func buildAllWith(b *builder, vs []*Val) []interface{} {
+	out := make([]interface{}, len(vs))
+	for i, v := range vs {
+		out[i] = b.build(v)
 	}
 	return out
 }
@@ -153,6 +165,18 @@ func (b *builder) build(v *Val) interface{} {
 	if v == nil {
 		return nil
 	}
+	if b.cache != nil {
+		if x, ok := b.cache[v]; ok {
+			return x
+		}
+		x := b.build1(v)
+		b.cache[v] = x
+		return x
+	}
+	return b.build1(v)
+}
+
+func (b *builder) build1(v *Val) interface{} {
 	in := b.inst
 	switch v.K {
 	// ---- plain kinds
@@ -268,6 +292,9 @@ func (b *builder) build(v *Val) interface{} {
 		return &ErrP{S: v.str(in)}
 	case "perr!":
 		return &ErrP{S: v.str(in), pan: b.pan(v)}
+	case "standin":
+		e, _ := b.sub(v, 0).(error)
+		return StandIn{err: e}
 	case "stderr": // errors.New
 		return errors.New(v.str(in))
 	case "errwrap":
